@@ -4,7 +4,7 @@ listings alive on one reader, read in any order; every next() and - at the end o
 the reader's tables and metadata attributes are validated by Readers_Val in TLC."""
 import io
 
-from .container import FileGen, encode_file, independent_decode, project_item, meta_of, tables, public, reader_of
+from .container import FileGen, encode_file, independent_decode, project_item, make_index, meta_of, tables, public, reader_of
 from .tlc import validate_observations, run_tlc
 
 VAL_CONSTS = 'CONSTANT RVariant = "ok"\n'
@@ -35,7 +35,7 @@ def run_session(rnd, versions, nreaders=4, force_logs=False):
         v = rnd.choice(versions)
         files.append(g.v2(nrec=rnd.choice([0, 1, 2, 4])) if v == 2 else g.v3(nrec=rnd.choice([0, 1, 3]), nblocks=rnd.choice([1, 3, 5]), force_logs=force_logs))
     blobs = [encode_file(f)[0] for f in files]
-    index = [{independent_decode(r): i + 1 for i, r in enumerate(f['_recs'])} for f in files]
+    index = [make_index(f['_recs']) for f in files]
     d1 = ({}, {})
     specs = [{'own': True}, {'own': True}, {'own': False, 'dict': 1}, {'own': False, 'dict': 1}]
     rnd.shuffle(specs)
@@ -51,7 +51,7 @@ def run_session(rnd, versions, nreaders=4, force_logs=False):
         except Exception as ex:
             acts.append({'op': 'open', 'r': r + 1, 'f': fi + 1, 'err': type(ex).__name__})
             return None
-        gens.append([it, r, fi, True])
+        gens.append([it, r, fi, True, {k_: list(v_) for k_, v_ in index[fi].items()}])   # each listing counts its own yields
         # the table pair of EVERY reader object right after the request was made (nothing has been read yet)
         acts.append({'op': 'open', 'r': r + 1, 'f': fi + 1,
                      'tabs': [list(tables(o_.threads_pids, o_.pids_names)) for o_ in objs]})
@@ -60,12 +60,12 @@ def run_session(rnd, versions, nreaders=4, force_logs=False):
         return len(gens) - 1
 
     def do_adv(gi):
-        it, r, fi, alive = gens[gi]
+        it, r, fi, alive, own_index = gens[gi]
         a = {'op': 'adv', 'g': gi + 1}
         try:
             x = next(it)
             a['found'] = True
-            a['item'] = project_item(x, index[fi])
+            a['item'] = project_item(x, own_index)
         except StopIteration:
             a['found'] = False
             a['item'] = {}
